@@ -250,7 +250,7 @@ def run_conc_check(pid, tier, seed, wd):
     return violations, drift, cov, time.time() - t0
 
 
-ELIGIBLE_POL = ("fifo", "lru", "lfu")
+ELIGIBLE_POL = ("fifo", "lru", "lfu", "arc", "tlru")
 
 
 def lock_protocol_conformance(pid, tier, wd, all_tr, drift):
@@ -261,7 +261,7 @@ def lock_protocol_conformance(pid, tier, wd, all_tr, drift):
     mc_cfg = os.path.join(wd, "ConcMC.cfg")
     consts = {"Quirks": set(), "CQuirks": set(), "Flavs": {"sync", "async"},
               "Pols": {"lru", "lfu"} if thorough else {"lru"}, "Limits": {1, 2} if thorough else {1},
-              "Ttls": {0, 2} if thorough else {2}, "MaxOps": 2, "NThreads": 2}
+              "Ttls": {0, 2} if thorough else {2}, "Maxmems": {0}, "MaxOps": 2, "NThreads": 2}
     write_cfg(mc_cfg, "Spec", consts, invariants=["NoDeadlock", "QuiescentConsistent", "ValuesCorrect"])
     r = tlc_mc("ConcMC", mc_cfg, pid + "_concmc", workers=12, timeout=3000)
     if not r["ok"]:
@@ -269,6 +269,17 @@ def lock_protocol_conformance(pid, tier, wd, all_tr, drift):
                         ("\n".join(r["errors"][:4]) or r["out"][-2000:]))
     log("[%s] TLC proved NoDeadlock, QuiescentConsistent, ValuesCorrect on Conc.tla: %d states / %d transitions (%.0fs)" %
         (pid, r["distinct"], r["generated"], r["wall_s"]))
+    # memory-limited caches (insert_with_memory: size check, eviction loop and limit step nested in the queue lock)
+    cm = dict(consts, Limits={0, 2} if thorough else {0}, Ttls={0}, Maxmems={3}, Pols={"lru", "lfu"} if thorough else {"lru"})
+    mcfg = os.path.join(wd, "ConcMC_mem.cfg")
+    write_cfg(mcfg, "Spec", cm, invariants=["NoDeadlock", "QuiescentConsistent", "ValuesCorrect"])
+    rm = tlc_mc("ConcMC", mcfg, pid + "_concmc_mem", workers=12, timeout=3000)
+    if not rm["ok"]:
+        raise ToolError("TLC did not prove the Conc.tla invariants for memory-limited caches:\n" +
+                        ("\n".join(rm["errors"][:4]) or rm["out"][-2000:]))
+    r["distinct"] += rm["distinct"]
+    r["generated"] += rm["generated"]
+    log("[%s] ... and for memory-limited caches: %d states" % (pid, rm["distinct"]))
     # non-vacuity: the as-found protocols must be refuted
     refuted = []
     if thorough or pid == "C17":
@@ -294,7 +305,7 @@ def lock_protocol_conformance(pid, tier, wd, all_tr, drift):
             if len(names) != 1:
                 continue
             cfgd, meta = rec["cfgs"][names[0]], rec["metas"][names[0]]
-            if cfgd["policy"] not in ELIGIBLE_POL or cfgd["maxmem"] != 0 or meta["hasInv"] or rec.get("panic"):
+            if cfgd["policy"] not in ELIGIBLE_POL or meta["hasInv"] or rec.get("panic"):
                 continue
             # DashMap shard locks are scheduling points of the real run but Conc.tla treats DashMap
             # operations as part of the surrounding lock-free code: replay only schedules in which no
